@@ -83,14 +83,9 @@ Proof.
 Qed.
 
 Lemma from_sparse_start_row : forall (c0 : pos * T) (rest : list (pos * T)) (r : range T),
+  pre empty (OFromSparse (c0 :: rest)) ->
   from_sparse d (c0 :: rest) = Ok r -> fst (r_start r) = fst (fst c0).
-Proof.
-  intros c0 rest r H. unfold from_sparse in H. cbv zeta in H.
-  repeat match type of H with
-         | obind ?X _ = _ => destruct X; cbn [obind] in H; try discriminate H
-         end.
-  injection H as <-. reflexivity.
-Qed.
+Proof. intros c0 rest r Hp H. exact (@from_sparse_start_row_sorted T d c0 rest r Hp H). Qed.
 
 Lemma rect_some_not_empty : forall (r : range T) b, rect r = Some b -> is_empty r = false.
 Proof. intros r b H. unfold rect in H. destruct (is_empty r); [discriminate|reflexivity]. Qed.
@@ -173,7 +168,7 @@ Proof.
     assert (Hne : is_empty r = false).
     { rewrite HL in Hrect. cbn [map tight_bbox] in Hrect. exact (rect_some_not_empty _ Hrect). }
     assert (Hrow : fst (r_start r) = n).
-    { rewrite HL in Hr. rewrite (@from_sparse_start_row x rest r Hr). exact Hx. }
+    { rewrite HL in Hr, HpL. rewrite (@from_sparse_start_row x rest r HpL Hr). exact Hx. }
     split; [unfold start; rewrite Hne; cbn [option_map]; rewrite Hrow; reflexivity|]. split.
     + intros q Hq. rewrite (cell_or_from_sparse q HpL Hr), (cell_or_from_sparse q Hp Hr0).
       apply last_write_lazy. assumption.
@@ -192,7 +187,7 @@ Proof.
   destruct (@from_sparse_spec T d _ Hp) as (r0 & Hr0 & _ & Hrect & _).
   exists r0. split; [exact Hr0|].
   cbn [map tight_bbox] in Hrect. unfold start. rewrite (rect_some_not_empty _ Hrect).
-  cbn [option_map]. rewrite (@from_sparse_start_row c0 cells r0 Hr0). reflexivity.
+  cbn [option_map]. rewrite (@from_sparse_start_row c0 cells r0 Hp Hr0). reflexivity.
 Qed.
 
 (* ---------------------------------------------------------------------------------------- *)
